@@ -422,6 +422,13 @@ func crashEnumerate(h *histRunner, i int, op gen.HOp, rest []gen.HOp, o *Outcome
 
 // afterRecovery continues on a recovered store.
 func afterRecovery(c *simkv.Disk, db gdbi.GraphDB, matched *model.Store, h *histRunner, rest []gen.HOp, what string, o *Outcome, x *Exec) *Violation {
+	v, _ := afterRecoveryM(c, db, matched, h, rest, what, o, x)
+	return v
+}
+
+// afterRecoveryM also returns the abstract state reached (nil when the
+// continuation ended early at a recorded finding or a violation).
+func afterRecoveryM(c *simkv.Disk, db gdbi.GraphDB, matched *model.Store, h *histRunner, rest []gen.HOp, what string, o *Outcome, x *Exec) (*Violation, *model.Store) {
 	u := h.u
 	u.VIDs = append(append([]string{}, u.VIDs...), "pv", "pw")
 	u.EIDs = append(append([]string{}, u.EIDs...), "pe")
@@ -452,13 +459,13 @@ func afterRecovery(c *simkv.Disk, db gdbi.GraphDB, matched *model.Store, h *hist
 		}
 		if x.IsKnown("C03", strings.Replace(v.Signature, "C04/", "C03/", 1)) || x.IsKnown("C04", v.Signature) {
 			o.Count("recovery_continuation_ended_at_known", 1)
-			return nil
+			return nil, nil
 		}
 		o.Count("recovery_continuations_failed", 1)
-		return &Violation{Class: "C04/crash/after-recovery", Signature: "C04/crash/after-recovery/" + strings.TrimPrefix(v.Signature, "C04/"), Detail: what + "; then " + v.Detail}
+		return &Violation{Class: "C04/crash/after-recovery", Signature: "C04/crash/after-recovery/" + strings.TrimPrefix(v.Signature, "C04/"), Detail: what + "; then " + v.Detail}, nil
 	}
 	o.Count("recovery_continuations_checked", 1)
-	return nil
+	return nil, rh.m
 }
 
 func otherGraphsDiff(want, got *obs, g string) string {
